@@ -19,10 +19,10 @@ from models.m_core import bytes_eq, values_eq
 ID = 'C08'
 PROGRAMS = {'core': dict(crate='vaporetto', features=['train', 'kytea'], extra=[dict(crate='vaporetto_rules')])}
 UNIT_CAP = 150
-BUDGET_S = {'quick': 280, 'thorough': 2400}
+BUDGET_S = {'quick': 600, 'thorough': 1200}      # wall-clock safety caps (exceeding one is reported as inconclusive); typical quick runs take 1-200 s
 
 SHAPE_A = {'cw': 2, 'tw': 2, 'char': ['a', 'ba'], 'type': ['R'],
-           'tags': [{'token': 'a', 'cands': [['X'], ['p', 'q']], 'char': [('ba', [0, 1]), ('a', [1])], 'type': [('RR', [0])]},
+           'tags': [{'token': 'a', 'cands': [['X'], ['p', 'q']], 'char': [('ba', [0, 1]), ('a', [1])], 'type': [('RR', [0, 1]), ('R', [1, 2])]},
                     {'token': 'ab', 'cands': [['N', 'V']], 'char': [('b', [0])], 'type': []}]}
 SHAPE_B = {'cw': 3, 'tw': 1, 'char': ['b', 'ab'], 'dict': ['a']}
 PREDICTORS = {
@@ -100,6 +100,9 @@ def jobs(tier, seed):
                     if n == 3 and not ((h in deep and fin == 'As') or (stored and fin == 'A' and 'fill' in h)):
                         continue
                 js.append({'name': 'hist/%s/%s/n%d' % ('+'.join(h) or 'none', fin, n), 'hist': list(h), 'final': fin, 'n': n, 'seed': seed})
+                if fin in ('A', 'As') and n == 2 and any(op in ('pA', 'pAs', 'pB') for op in h):
+                    # the same history with the 'wb' weight profile (every character its own token, distinct prime tag weights)
+                    js.append({'name': 'hist/%s/%s/n%d/wb' % ('+'.join(h), fin, n), 'hist': list(h), 'final': fin, 'n': n, 'seed': seed, 'profile': 'wb'})
     js.sort(key=lambda j: -j['n'])
     return js
 
@@ -127,25 +130,38 @@ def c18_jobs(tier, seed):
 STALE_UPDATES = [('raw', 'abab'), ('raw', 'b'), ('tokenized', 'a b a/x b'), ('tokenized', 'ab ab a'), ('partial', 'a|b-a b a'), ('partial', 'a/t|b-a|a')]
 
 
+_PRIMES = [2, 3, 5, 7, 11, 13, 17, 19, 23, 29, 31, 37, 41, 43, 47, 53, 59, 61, 67, 71, 73, 79, 83, 89, 97, 101, 103, 107, 109, 113, 127, 131, 137, 139, 149, 151, 157, 163, 167, 173]
+
+
 class SeededWeights(dict):
-    """concrete model weights drawn from VERIF_SEED: C08 quantifies over histories, not over models"""
-    def __init__(self, seed):
+    """concrete model weights: C08 quantifies over histories, not over models.  Profile 'seeded' draws them from VERIF_SEED; profile 'wb' makes every
+    boundary a word boundary (large bias) and gives every tag weight a distinct prime, so that single-character tokens occur and every tag feature that
+    fires (or wrongly fires from stale state) changes a stored score"""
+    def __init__(self, seed, profile='seeded'):
         import random
-        dict.__init__(self); self.rnd = random.Random(seed * 7 + 1)
+        dict.__init__(self); self.rnd = random.Random(seed * 7 + 1); self.profile = profile; self.np = 0
 
     def __missing__(self, k):
-        v = self.rnd.choice([0, 1, -1, 5, -7, 30, -30, 200, -150])
+        if self.profile == 'wb':
+            if k == 'bias':
+                v = 5000
+            elif k[:2] in ('tb', 'tc', 'tt'):
+                v = _PRIMES[self.np % len(_PRIMES)] * (1 if self.np % 3 else -1); self.np += 1
+            else:
+                v = self.rnd.choice([1, -1, 2, -3])
+        else:
+            v = self.rnd.choice([0, 1, -1, 5, -7, 30, -30, 200, -150])
         self[k] = v
         return v
 
 
-def build_predictors(e, prog, seed=0):
+def build_predictors(e, prog, seed=0, profile='seeded'):
     out = {}
     specs = {}
     for name, (shape, tags, store) in PREDICTORS.items():
         key = id(shape)
         if key not in specs:
-            ms = P.fill_model(e, shape, concrete=SeededWeights(seed + len(specs)))
+            ms = P.fill_model(e, shape, concrete=SeededWeights(seed + len(specs), profile))
             specs[key] = ms
         ms = specs[key]
         model = P.build_model(e, prog, ms)
@@ -270,7 +286,7 @@ def make(e, progs, job):
     st = {}
 
     def harness_repredict(e):
-        preds = e.memo(('preds', job.get('seed', 0)), lambda: build_predictors(e, prog, job.get('seed', 0)))
+        preds = e.memo(('preds', job.get('seed', 0), job.get('profile', 'seeded')), lambda: build_predictors(e, prog, job.get('seed', 0), job.get('profile', 'seeded')))
         st['preds'] = preds
         ss = S.sym_string(e, 'x', job['n'], 'ab', exclude='\0')
         st['s'] = ss
@@ -286,7 +302,7 @@ def make(e, progs, job):
         e.check(obs_equal(e, o1, o2, c1, c2), 'reused sentence equals fresh sentence')
 
     def harness_stalefill(e):
-        preds = e.memo(('preds', job.get('seed', 0)), lambda: build_predictors(e, prog, job.get('seed', 0)))
+        preds = e.memo(('preds', job.get('seed', 0), job.get('profile', 'seeded')), lambda: build_predictors(e, prog, job.get('seed', 0), job.get('profile', 'seeded')))
         st['preds'] = preds
         cell = Cell(S.new_sentence(e, prog, 'raw', mk_str('ab')).f[0].v)
         pc1, _ = preds[job['p1']]
@@ -329,7 +345,7 @@ def make(e, progs, job):
         return (harness_repredict if job['kind'] == 'repredict' else harness_stalefill), describe_extra
 
     def harness(e):
-        preds = e.memo(('preds', job.get('seed', 0)), lambda: build_predictors(e, prog, job.get('seed', 0)))
+        preds = e.memo(('preds', job.get('seed', 0), job.get('profile', 'seeded')), lambda: build_predictors(e, prog, job.get('seed', 0), job.get('profile', 'seeded')))
         st['preds'] = preds
         cell = Cell(S.new_sentence(e, prog, 'default', None).f[0].v)
         state = {}
